@@ -22,7 +22,8 @@ func c15leaves() []*T {
 	return []*T{Sym("a"), Int(7), Str("s"), QSym("k"),
 		uq(Sym("x")), uq(Sym("st")), uq(Sym("sy")), uq(Sym("xs")), uq(Sym("ar")), uq(Sym("e")),
 		uqs(Sym("xs")), uqs(Sym("e")), uqs(Sym("one")), uqs(Sym("nested")),
-		uq(p1(`(+ n 1)`)), uqs(p1(`(list n n)`)), uq(p1(`(list n (quote a))`)), uqs(p1(`(rest xs)`)), uq(gen.T1(Int(4))), uqs(Call("list", gen.T1(Int(6))))}
+		uq(p1(`(+ n 1)`)), uqs(p1(`(list n n)`)), uq(p1(`(list n (quote a))`)), uqs(p1(`(rest xs)`)), uq(gen.T1(Int(4))), uqs(Call("list", gen.T1(Int(6)))),
+		L(Sym("syntaxQuote"), L(Sym("b"), uq(Sym("x")))), L(Sym("syntaxQuote"), A(uqs(Sym("xs")), Sym("c")))}
 }
 
 // containers of width 1..w over the given element pool
@@ -289,7 +290,7 @@ func init() {
 	engine.Register(&engine.Check{
 		ID:    "C15",
 		Level: "exploration",
-		Rule: "templates: every list/array of width 1..2 over a pool of 20 leaves (literals, ~x for 6 bindings, ~@xs for 4 lists incl. empty and nested, ~(compound), ~@(compound), traced unquotes) and width-1..2 nested containers; width 3 over the leaves; " +
+		Rule: "templates: every list/array of width 1..2 over a pool of 22 leaves (literals, ~x for 6 bindings, ~@xs for 4 lists incl. empty and nested, ~(compound), ~@(compound), traced unquotes) and width-1..2 nested containers; width 3 over the leaves; " +
 			"each in explicit form and with the reader sugar ^ ~ ~@; value compared with exact substitution (R4 inside the reference evaluator). Macros: 12 macros x all argument tuples over 5 forms x 7 call sites (top level, function, defn, loop, let, argument, cond) x {direct, inside another macro's expansion}: " +
 			"value/effects equal those of the hand-written expansion, stacks at rest; macexpand leaves depths and globals of the caller unchanged and prints the exact substitution",
 		Assumptions: []string{"splicing a non-list and nested syntax-quotes are outside the modelled fragment (skipped)"},
